@@ -118,7 +118,15 @@ def run(model, col, tier):
                   f"the handler ignores {'Store ' if not mentions_store else ''}{'Scope' if not mentions_scope else ''}: loads and stores / scopes are translated alike", GEN, h)
     # ---------------- R06.3 ------------------------------------------------------
     vb = gv.own_method("v_BinaryInstruction")
-    opmap, opnode = fold_dict_in(model, vb, "opCodeMap")
+    # the operator table: the dict display (local, class-level or module-level) whose keys are IR opcodes and whose values are strings
+    opmap = opnode = None
+    mapname = None
+    cands = [(n.targets[0].id, n.value) for n in ast.walk(vb) if isinstance(n, ast.Assign) and isinstance(n.targets[0], ast.Name) and isinstance(n.value, ast.Dict)]
+    cands += [(k, v) for k, v in model.file(GEN).assigns.items() if isinstance(v, ast.Dict)] + [(k, v) for k, v in gv.class_attrs.items() if isinstance(v, ast.Dict)]
+    for nm_, d_ in cands:
+        if d_.keys and all(k is not None and "OpCode." in unparse(k) for k in d_.keys) and all(isinstance(v, ast.Constant) and isinstance(v.value, str) for v in d_.values):
+            opmap, opnode, mapname = model.fold(d_), d_, nm_
+            break
     if opmap is None:
         raise AnchorMissing(f"{GEN}::v_BinaryInstruction: opCodeMap not found")
     opcodes = model.fold(model.module_assign(WA, "opcodes"))
@@ -149,18 +157,26 @@ def run(model, col, tier):
 
     def suffix_of(sif_, uns_):
         """the text appended to the mnemonic inside the suffix branch for a signed / unsigned operation"""
+        # the signedness flag: the local(s) the nested tests of the branch read; it must derive from `<type>.Unsigned`
+        flags = {x.id for s_ in sif_.body for n_ in ast.walk(s_) if isinstance(n_, (ast.If, ast.IfExp)) for x in ast.walk(n_.test) if isinstance(x, ast.Name)}
+        for fl in flags:
+            srcs_ = find_assign(vb, fl)
+            if not srcs_ or not any("Unsigned" in unparse(v_) for v_ in srcs_):
+                raise AnalysisError(f"{GEN}::v_BinaryInstruction: the suffix depends on `{fl}`, which is not derived from a type's Unsigned property")
+        senv = {fl: uns_ for fl in flags}
+
         def run(stmts):
             out_ = ""
             for st_ in stmts:
                 if isinstance(st_, ast.AugAssign) and isinstance(st_.target, ast.Name) and st_.target.id == mn_ and isinstance(st_.op, ast.Add):
                     v_ = st_.value
                     if isinstance(v_, ast.IfExp):
-                        v_ = v_.body if bool(ev(v_.test, {"unsigned": uns_})) else v_.orelse
+                        v_ = v_.body if bool(ev(v_.test, senv)) else v_.orelse
                     if not (isinstance(v_, ast.Constant) and isinstance(v_.value, str)):
                         raise AnalysisError(f"{GEN}::v_BinaryInstruction: suffix `{unparse(st_)}` is not a string constant")
                     out_ += v_.value
                 elif isinstance(st_, ast.If):
-                    out_ += run(st_.body if bool(ev(st_.test, {"unsigned": uns_})) else st_.orelse)
+                    out_ += run(st_.body if bool(ev(st_.test, senv)) else st_.orelse)
                 elif isinstance(st_, (ast.Expr, ast.Pass)):
                     continue
                 else:
@@ -209,8 +225,9 @@ def run(model, col, tier):
     col.floor("R06.3", "mnemonic combinations", nm, 10)
     if refusals:
         col.info(f"mnemonics the generator can build that the opcode table refuses: {sorted(set(refusals))}")
-    lookup = [n for n in ast.walk(vb) if isinstance(n, ast.Subscript) and isinstance(n.value, ast.Name) and n.value.id == "opCodeMap"]
-    col.check(bool(lookup) and all(unparse(l.slice) == "bi.OpCode" for l in lookup), "R06.3", f"{GEN}::v_BinaryInstruction looks its own opcode up", "opCodeMap[bi.OpCode]", f"{[unparse(l) for l in lookup]}", GEN, vb)
+    lookup = [n for n in ast.walk(vb) if isinstance(n, ast.Subscript) and unparse(n.value).split(".")[-1] == mapname and isinstance(n.ctx, ast.Load)]
+    bip = vb.args.args[1].arg
+    col.check(bool(lookup) and all(unparse(l.slice) == f"{bip}.OpCode" for l in lookup), "R06.3", f"{GEN}::v_BinaryInstruction looks its own opcode up", "opCodeMap[bi.OpCode]", f"{[unparse(l) for l in lookup]}", GEN, vb)
     # ---------------- R06.4 ------------------------------------------------------
     tsrc = None
     for n in ast.walk(vb):
@@ -221,10 +238,10 @@ def run(model, col, tier):
     cmp_members = {m for m in opmap if (m.member if isinstance(m, EnumRef) else "").startswith("CMP_")}
     good = False
     detail = f"operation type is derived from `{tname}`"
-    if tname and tname != "bi.Type":
+    if tname and tname != f"{bip}.Type":
         vals = find_assign(vb, tname)
         texts = [unparse(v) for v in vals]
-        has_default = "bi.Type" in texts
+        has_default = f"{bip}.Type" in texts
         has_operand = any("Values[" in t and ".Type" in t for t in texts)
         # the operand assignment must be guarded by a test listing the comparison opcodes
         guard_members = set()
@@ -237,12 +254,13 @@ def run(model, col, tier):
                     guard_members |= {m.member for m in cmp_members}
         good = has_default and has_operand and guard_members >= {m.member for m in cmp_members}
         detail = f"`{tname}` = bi.Type, replaced by the operand type for {sorted(guard_members)}"
-    elif tname == "bi.Type":
+    elif tname == f"{bip}.Type":
         good = not cmp_members
     col.check(good, "R06.4", f"{GEN}::v_BinaryInstruction comparison operand type", detail,
               f"{detail}: a comparison's result type is int whatever it compares, so comparing floats emits i32.lt_s over f32 locals (invalid module) and uints compare as signed", GEN, vb)
-    uns = find_assign(vb, "unsigned")
-    col.check(bool(uns) and all(".Unsigned" in unparse(u) and (tname or "bi.Type") in unparse(u) for u in uns), "R06.4", f"{GEN}::v_BinaryInstruction signedness source",
+    flag_names = {x.id for s_ in sif.body for n_ in ast.walk(s_) if isinstance(n_, (ast.If, ast.IfExp)) for x in ast.walk(n_.test) if isinstance(x, ast.Name)}
+    uns = [v_ for fl in sorted(flag_names) for v_ in find_assign(vb, fl)]
+    col.check(bool(uns) and all(".Unsigned" in unparse(u) and (tname or f"{bip}.Type") in unparse(u) for u in uns), "R06.4", f"{GEN}::v_BinaryInstruction signedness source",
               "signedness comes from the same type as the operator prefix", f"signedness comes from {[unparse(u) for u in uns]}", GEN, vb)
     # ---------------- R06.5 ------------------------------------------------------
     ap = pipe.ir_passes
@@ -255,10 +273,23 @@ def run(model, col, tier):
     i_ir = next((i for i, s in enumerate(comp.body) if isinstance(s, ast.For) and "irPasses" in unparse(s)), None)
     i_w = next((i for i, s in enumerate(comp.body) if "GenerateWasm.GetPass" in unparse(s)), None)
     col.check(i_ir is not None and i_w is not None and i_ir < i_w, "R06.5", "nsl/Compiler.py::Compile wasm after IR passes", "wasm generation runs after the IR passes", "wasm generation does not run after the IR passes", "nsl/Compiler.py", comp)
-    ac = find_assign(vf, "argCount")
-    col.check(bool(ac) and "len(functionType.Arguments)" in unparse(ac[0]), "R06.5", f"{GEN}::v_Function argument count", "argCount = number of parameters", f"argCount = {[unparse(a) for a in ac]}", GEN, vf)
+    from ..sem import local_env as _le65, rtext as _rt65
+
+    vf_env = _le65(vf, allow_impure=True)
     mp = [n for n in ast.walk(vf) if isinstance(n, ast.Assign) and isinstance(n.targets[0], ast.Subscript) and "AddLocal" in unparse(n.value)]
-    good = bool(mp) and isinstance(mp[0].value, ast.BinOp) and isinstance(mp[0].value.op, ast.Add) and "argCount" in unparse(mp[0].value) and unparse(mp[0].targets[0].slice) == "ref"
+    good = False
+    offs_txt = None
+    if mp and isinstance(mp[0].value, ast.BinOp) and isinstance(mp[0].value.op, ast.Add):
+        sides = [mp[0].value.left, mp[0].value.right]
+        offs = next((s_ for s_ in sides if "AddLocal" not in unparse(s_)), None)
+        offs_txt = _rt65(offs, vf_env) if offs is not None else None
+        # the offset is the number of parameters of the (converted) function type
+        is_count = offs_txt is not None and offs_txt.startswith("len(") and offs_txt.endswith(".Arguments)") and ("_ConvertFunctionType(" in offs_txt or ".Type" in offs_txt)
+        lp65 = next((n for n in ast.walk(vf) if isinstance(n, ast.For) and any(x is mp[0] for x in ast.walk(n))), None)
+        key_ok = lp65 is not None and isinstance(lp65.target, ast.Tuple) and unparse(mp[0].targets[0].slice) == unparse(lp65.target.elts[0]) and ".items()" in unparse(lp65.iter)
+        good = is_count and key_ok
+    col.check(offs_txt is not None and offs_txt.startswith("len(") and offs_txt.endswith(".Arguments)"), "R06.5", f"{GEN}::v_Function argument count", "locals are numbered after the parameters: offset = len(<function type>.Arguments)",
+              f"the offset added to AddLocal's index is `{offs_txt}`", GEN, vf)
     col.check(good, "R06.5", f"{GEN}::v_Function local index map", "map[ref] = argCount + AddLocal(...)", "value references are not mapped to argCount + the index AddLocal returns", GEN, vf)
     setm = [c for c in ast.walk(vf) if isinstance(c, ast.Call) and last_attr(c) == "SetReferenceToLocalMap"]
     col.check(bool(setm) and mp and unparse(setm[0].args[0]) == unparse(mp[0].targets[0].value), "R06.5", f"{GEN}::v_Function installs the map", "the context receives this function's map", None, GEN, vf)
